@@ -140,15 +140,7 @@ def run(prog: Program, rep, tier: str) -> None:
     n += 1
 
     # is_feasible ------------------------------------------------------------------------------
-    isf = it.methods["is_feasible"]
-    tol = [p for p in isf.params if p != "self"][0]
-    from ..symex import atoms_of
-    rs = returns_of(isf)
-    ok = False
-    if len(rs) == 1:
-        at = set(atoms_of(facts_for(isf).resolved(rs[0], rs[0].value), True))
-        ok = at == {("<=", "self.cons_violation", tol), ("<=", "self.bound_violation", tol)}
-    rep.check(ok, "formula-is_feasible", isf.qualname, short(rs[0]) if rs else "", "is_feasible(tol) is cons_violation <= tol and bound_violation <= tol", isf.loc())
+    is_feasible_rule(prog, rep, "formula-is_feasible")
 
     # sign tables ---------------------------------------------------------------------------------
     sign_table(prog, rep, it.methods["bounds_dual"], "-(self.obj_grad + self.cons_jac.T.dot(self.y))",
@@ -167,6 +159,33 @@ def run(prog: Program, rep, tier: str) -> None:
     implicit_funcs(prog, rep)
     projection_shape(prog, rep)
     rep.pin("closed-form formulas compared", n + rep.extra.get("implicit_formulas", 0), 17)
+
+
+def is_feasible_rule(prog: Program, rep, rule: str) -> None:
+    """is_feasible(tol) is true exactly when cons_violation <= tol and bound_violation <= tol: every truthy return is dominated by /
+    is the conjunction of both comparisons, every falsy return by the negation of one of them."""
+    from ..symex import atoms_of
+    it = prog.cls(IT)
+    isf = it.methods["is_feasible"]
+    ff = facts_for(isf)
+    tol = [p for p in isf.params if p != "self"][0]
+    want = {("<=", "self.cons_violation", tol), ("<=", "self.bound_violation", tol)}
+    neg = {("<", tol, "self.cons_violation"), ("<", tol, "self.bound_violation")}
+    ok = True
+    rs = returns_of(isf)
+    if not rs:
+        ok = False
+    for r in rs:
+        v = ff.resolved(r, r.value)
+        facts = set(ff.at(r).facts)
+        if isinstance(v, ast.Constant) and v.value is False:
+            ok = ok and bool(facts & neg)
+        elif isinstance(v, ast.Constant) and v.value is True:
+            ok = ok and want <= facts
+        else:
+            at = set(atoms_of(v, True))
+            ok = ok and (at | (facts & want)) == want and not (facts - want - neg - {a for a in facts if a[0] == "truthy"})
+    rep.check(ok, rule, isf.qualname, short(rs[0]) if rs else "is_feasible", "is_feasible(tol) is cons_violation <= tol and bound_violation <= tol", isf.loc())
 
 
 def evaluations_not_corrupted(prog: Program, rep) -> None:
